@@ -278,9 +278,8 @@ func (b *Broker[T]) Stop() {
 // Wait blocks until either the context has been canceled, or all work
 // has been completed.
 func (b *Broker[T]) Wait(ctx context.Context) {
-	b.mu.Lock()
-	defer b.mu.Unlock()
-
+	// the WaitGroup is safe for concurrent use; holding b.mu here
+	// would keep a concurrent Stop from ever cancelling the broker.
 	b.wg.Wait(ctx)
 }
 
